@@ -88,6 +88,7 @@ func (p *ProcessConfig) Compare(another *ProcessConfig) bool {
 		p.Disabled != another.Disabled ||
 		p.IsDaemon != another.IsDaemon ||
 		p.Command != another.Command ||
+		p.Executable != another.Executable ||
 		p.LogLocation != another.LogLocation ||
 		p.ReadyLogLine != another.ReadyLogLine ||
 		p.DisableAnsiColors != another.DisableAnsiColors ||
@@ -110,6 +111,7 @@ func (p *ProcessConfig) Compare(another *ProcessConfig) bool {
 		!reflect.DeepEqual(p.DependsOn, another.DependsOn) ||
 		!reflect.DeepEqual(p.RestartPolicy, another.RestartPolicy) ||
 		!reflect.DeepEqual(p.Environment, another.Environment) ||
+		!reflect.DeepEqual(p.Entrypoint, another.Entrypoint) ||
 		!reflect.DeepEqual(p.Args, another.Args) {
 		//diffs := compareStructs(*p, *another)
 		//log.Warn().Msgf("Structs are different: %s", diffs)
